@@ -1,1 +1,146 @@
-From C14 Require Import ModelScale Proofs.
+(* C14/Properties.v — property C14: chain data structures encode as the specification defines.
+   Only statements, each closed by `exact <lemma>`, with Print Assumptions beneath.
+
+   The independent reference encoder is ModelScale.encode at the schemas of ModelTypes.v
+   (written from the specification; [registry] lists them: Header, Digest, Body, BABE
+   pre-digests, BABE and GRANDPA consensus digests, GRANDPA vote / signed vote / commit /
+   justification / voters / equivocation proof / vote payload, the GRANDPA gossip messages,
+   the primitives' authority list / scheduled change / commit / localized payload), the proto3
+   model of ModelProto.v for block requests and responses, BLAKE2b-256 of Common.Blake2b for the
+   header hash.  That the Go code computes these functions is the correspondence check. *)
+From Common Require Import Bytes Outcome Blake2b.
+From C14 Require Import Proofs.
+Local Open Scope N_scope.
+
+(* Every value of every wire type round-trips through its encoding (all values, all sizes) ... *)
+Theorem C14_roundtrip : forall n t, In (n, t) registry ->
+  forall v, has_type t v = true -> decode_all t (encode t v) = Some v.
+Proof. exact registry_roundtrip. Qed.
+Print Assumptions C14_roundtrip.
+
+(* ... also as a prefix of a longer stream (a digest inside a header, a header inside a block) *)
+Theorem C14_roundtrip_stream : forall n t, In (n, t) registry ->
+  forall v rest, has_type t v = true -> decode t (encode t v ++ rest) = Some (v, rest).
+Proof. exact registry_roundtrip_stream. Qed.
+Print Assumptions C14_roundtrip_stream.
+
+(* Canonical form: the reference decoder accepts exactly the reference encodings — a byte string
+   has at most one reading and it is the encoding of that reading (shortest compact integers,
+   0/1 option tags, known enum indices, no trailing bytes). *)
+Theorem C14_canonical : forall n t, In (n, t) registry ->
+  forall bs v, decode_all t bs = Some v -> bs = encode t v /\ has_type t v = true.
+Proof. exact registry_canonical. Qed.
+Print Assumptions C14_canonical.
+
+(* Distinct values have distinct encodings. *)
+Theorem C14_injective : forall n t, In (n, t) registry ->
+  forall v w, has_type t v = true -> has_type t w = true -> encode t v = encode t w -> v = w.
+Proof. exact registry_injective. Qed.
+Print Assumptions C14_injective.
+
+(* The codec theorems for an arbitrary well-formed wire type (the registry is an instance). *)
+Theorem C14_codec_roundtrip : forall t, wf_ty t = true -> forall v r, has_type t v = true ->
+  decode t (encode t v ++ r) = Some (v, r).
+Proof. exact decode_encode. Qed.
+Print Assumptions C14_codec_roundtrip.
+
+Theorem C14_codec_canonical : forall t bs v r, decode t bs = Some (v, r) ->
+  bs = encode t v ++ r /\ has_type t v = true.
+Proof. exact decode_canonical. Qed.
+Print Assumptions C14_codec_canonical.
+
+(* A header's hash is BLAKE2b-256 of its encoding: for a header that has not been hashed before
+   (new, or just decoded), and more generally whenever the cached hash is not stale; asking
+   again gives the same answer. *)
+Theorem C14_header_hash : forall v,
+  fst (header_hash (fresh v)) = blake2b_256 (encode header v).
+Proof. exact header_hash_fresh. Qed.
+Print Assumptions C14_header_hash.
+
+Theorem C14_header_hash_partial : forall h, stale h = false ->
+  fst (header_hash h) = blake2b_256 (encode header (hval h))
+  /\ fst (header_hash (snd (header_hash h))) = fst (header_hash h)
+  /\ stale (snd (header_hash h)) = false.
+Proof.
+  intros h H. split; [exact (header_hash_not_stale h H)|].
+  split; [exact (header_hash_again h) | exact (header_hash_keeps_fresh h H)].
+Qed.
+Print Assumptions C14_header_hash_partial.
+
+(* full statement, violated by the code (finding header-hash-stale-cache):
+     forall h, fst (header_hash h) = blake2b_256 (encode header (hval h)).
+   Header.Hash() caches its result in the header and assignments to the exported fields do not
+   reset the cache: *)
+Theorem C14_header_hash_stale_refuted :
+  exists v v', has_type header v = true /\ has_type header v' = true /\
+    let h := set_fields (snd (header_hash (fresh v))) v' in
+    stale h = true /\ fst (header_hash h) <> blake2b_256 (encode header (hval h)).
+Proof.
+  exists (witness_v 1), (witness_v 2).
+  destruct stale_witness as (A & B & C & D). repeat split; assumption.
+Qed.
+Print Assumptions C14_header_hash_stale_refuted.
+
+(* The DigestItem of the pinned tree had no `Other` variant (index 0): a header of the specified
+   type carrying one could not be decoded (fix: fixes/C14-digest-other-variant.patch; the model
+   [header] mirrors the repaired type, [header_prefix] the old one). *)
+Theorem C14_other_digest_prefix_refuted :
+  exists v, has_type header v = true
+         /\ decode_all header (encode header v) = Some v
+         /\ decode_all header_prefix (encode header v) = None.
+Proof. exists other_header. exact other_header_prefix. Qed.
+Print Assumptions C14_other_digest_prefix_refuted.
+
+(* Block requests round-trip through the protobuf encoding, in the field order protobuf-go emits
+   and in field-number order (field order is not significant on the wire). *)
+Theorem C14_request_roundtrip : forall r, request_ok r = true ->
+  decode_request (encode_request r) = Ok r /\ decode_request (encode_request_sorted r) = Ok r.
+Proof. exact request_roundtrip. Qed.
+Print Assumptions C14_request_roundtrip.
+
+(* Block responses round-trip up to what proto3 can express: an empty body / receipt / message
+   queue arrives as an absent one (normalise); hash, header, extrinsics, justification —
+   including the empty justification — arrive unchanged. *)
+Theorem C14_response_roundtrip : forall ds, forallb block_data_ok ds = true ->
+  decode_response (encode_response ds) = Ok (map normalise ds).
+Proof. exact response_roundtrip. Qed.
+Print Assumptions C14_response_roundtrip.
+
+(* ---- non-vacuity ---- *)
+(* the Polkadot genesis header: its reference encoding hashes to the chain's genesis hash
+   0x91b171bb158e2d3848fa23a9f1c25182fb8e20313b2c1eb49219da7a70ce90c3 *)
+Definition hexb (l : list N) : list byte := map n2b l.
+Example C14_polkadot_genesis_hash :
+  let state_root := hexb [41;208;217;114;205;39;203;197;17;233;88;159;203;122;69;6;
+                          213;235;106;158;141;242;5;240;4;114;229;171;53;74;78;23] in
+  let ext_root := hexb [3;23;10;46;117;151;183;183;227;216;76;5;57;29;19;154;
+                        98;177;87;231;135;134;216;192;130;242;157;207;76;17;19;20] in
+  let v := VS [VB (zeros 32); VN 0; VB state_root; VB ext_root; VL []] in
+  has_type header v = true /\
+  map b2n (fst (header_hash (fresh v))) =
+    [145;177;113;187;21;142;45;56;72;250;35;169;241;194;81;130;
+     251;142;32;49;59;44;30;180;146;25;218;122;112;206;144;195].
+Proof. vm_compute. split; reflexivity. Qed.
+
+(* a header with one digest item of each kind round-trips; its encoding starts with the parent
+   hash and carries the five variant indices *)
+Example C14_header_all_digest_kinds :
+  let pay := VS [VB (hexb [66;65;66;69]); VB (hexb [1;2])] in
+  let v := VS [VB (zeros 32); VN 16384; VB (zeros 32); VB (zeros 32);
+               VL [VE 6 pay; VE 4 pay; VE 0 (VB (hexb [9])); VE 8 (VS []); VE 5 pay]] in
+  has_type header v = true /\ decode_all header (encode header v) = Some v /\
+  map b2n (skipn 32 (firstn 36 (encode header v))) = [2;0;1;0] /\
+  length (encode header v) = (32 + 4 + 32 + 32 + 1 + 3 * (1 + 4 + 1 + 2) + (1 + 1 + 1) + 1)%nat.
+Proof. vm_compute. repeat split; reflexivity. Qed.
+
+Example C14_request_nonvacuous :
+  let r := mk_req 19 (FromNumber 1000) 1 (Some 128) in
+  request_ok r = true /\
+  map b2n (encode_request_sorted r) = [8;128;128;128;152;1; 26;4;232;3;0;0; 40;1; 48;128;1].
+Proof. vm_compute. split; reflexivity. Qed.
+
+Example C14_response_nonvacuous :
+  let d := mk_bd (zeros 32) None (Some [hexb [1;2;3]]) (Some []) None (Some []) in
+  block_data_ok d = true /\ normalise d <> d /\
+  decode_response (encode_response [d]) = Ok [normalise d].
+Proof. vm_compute. repeat split; try reflexivity. discriminate. Qed.
